@@ -1045,6 +1045,7 @@ func (f *Frame) binop(ns *nodeState, x *ssa.BinOp, av, bv Val) Val {
 		} else {
 			ex.needPrelude("arith")
 			p = App(SInt, "pow2", b)
+			f.pow2Facts(ns, b)
 		}
 		if x.Op == token.SHL {
 			var r Term
@@ -1078,6 +1079,18 @@ func (f *Frame) binop(ns *nodeState, x *ssa.BinOp, av, bv Val) Val {
 	}
 	ex.fail("binop %s", x.Op)
 	return Val{}
+}
+
+// pow2Facts: instance of lemma mathhelp.pow2_pos for a shift amount.
+func (f *Frame) pow2Facts(ns *nodeState, n Term) {
+	ex := f.ex
+	lm := ex.P.findLemma("mathhelp", "pow2_pos")
+	if lm == nil {
+		ex.fail("lemma mathhelp.pow2_pos (facts about 1 << n) not found in the contract files")
+	}
+	sc := &Scope{ex: ex, names: map[string]Val{}, st: ns.st, bound: map[string]Term{"n": n}}
+	inst := sc.lemmaInstance(&SExpr{Op: "call", Name: "pow2_pos", Args: []*SExpr{{Op: "id", Name: "n"}}}, lm)
+	ex.vc.Assume(inst, "lemma instance pow2_pos")
 }
 
 func isNilConst(v ssa.Value) bool {
